@@ -36,21 +36,22 @@ func timerTerm(c *vclock.Clock) string {
 }
 
 type cronGen struct {
-	r       *rand.Rand
-	clock   *vclock.Clock
-	now     time.Time
-	pool    []*cron.Entry // entry objects by eid
-	rows    []string      // coq term of (crow, start)
-	tbl     []string      // nxt table rows
-	eidOf   map[*cron.Entry]int
-	out     []string
-	store   *cron.CronStore
-	mode    string
-	stats   map[string]int
-	scrib   bool
-	workIds []string // work ids to draw from (pipeline harness); default: w / w2 / work
-	params  []def.TaskUpdateParam
-	exprs   []any
+	backdate time.Duration // the next entry made starts that long ago (once)
+	r        *rand.Rand
+	clock    *vclock.Clock
+	now      time.Time
+	pool     []*cron.Entry // entry objects by eid
+	rows     []string      // coq term of (crow, start)
+	tbl      []string      // nxt table rows
+	eidOf    map[*cron.Entry]int
+	out      []string
+	store    *cron.CronStore
+	mode     string
+	stats    map[string]int
+	scrib    bool
+	workIds  []string // work ids to draw from (pipeline harness); default: w / w2 / work
+	params   []def.TaskUpdateParam
+	exprs    []any
 }
 
 func (g *cronGen) metaFor() (map[string]string, bool) {
@@ -109,6 +110,11 @@ func (g *cronGen) newEntry(likeEid int) int {
 		scribbleParam(given)
 	}
 	start := g.now
+	if g.backdate > 0 {
+		// an entry object made earlier and offered only now: its first occurrences lie in the past
+		start = start.Add(-g.backdate)
+		g.backdate = 0
+	}
 	if g.r.Intn(3) == 0 {
 		start = start.Add(time.Duration(g.r.Intn(999)) * time.Millisecond)
 	}
